@@ -28,7 +28,11 @@ def gen_files():
     # source by the C19 translator; C01_subscript_* are stated over it (composition with C19)
     from translate import ops as tr_ops
 
-    return {"Ops.v": tr_ops.translate(str(lib.REPO))}
+    # Gen/NarrowTable.v: the class table of the C02 model (dumped from the running implementation by the
+    # C02 translator); the C02 proofs that C01_narrowing_keeps_value_from_C02 rests on are checked over it
+    from translate import narrowtable
+
+    return {"Ops.v": tr_ops.translate(str(lib.REPO)), "NarrowTable.v": narrowtable.translate(str(lib.REPO))}
 
 
 def run_impl(payload, timeout=1500):
@@ -136,6 +140,11 @@ def run(tier: str, replay: str | None = None):
         for i in range(4 if tier == "quick" else 40):
             src, calls = G.gen_composite_module(crng, 12, hist)
             mods.append({"id": f"comp{i}", "src": src, "calls": calls})
+        # match statements with capture patterns over statically shaped subjects, captured names read afterwards
+        mrng = random.Random(lib.seed() * 7919 + 5303)
+        for i in range(3 if tier == "quick" else 30):
+            src, calls = G.gen_match_module(mrng, 12, hist)
+            mods.append({"id": f"match{i}", "src": src, "calls": calls})
     by_id = {m["id"]: m for m in mods}
 
     # 3. run implementation + CPython + oracle (subprocess shards)
